@@ -278,8 +278,8 @@ func forgedArrivals(w *world.World) []world.Action {
 	payload, _ := (&esdt.ESDigitalToken{Type: uint32(vmcommon.NonFungible), Value: big.NewInt(5),
 		TokenMetaData: &esdt.MetaData{Nonce: 1, Name: []byte("forged"), Creator: uni.A0, Royalties: 20000, Hash: []byte("h"), Attributes: []byte("forged")}}).Marshal()
 	var acts []world.Action
-	for _, ct := range []vmcommon.CallType{vmcommon.DirectCall, vmcommon.AsynchronousCall, vmcommon.AsynchronousCallBack} {
-		for _, pair := range [][2][]byte{{uni.A0, uni.B0}, {uni.B0, uni.A0}, {uni.S0, uni.B0}} {
+	for _, ct := range []vmcommon.CallType{vmcommon.DirectCall, vmcommon.AsynchronousCall} {
+		for _, pair := range [][2][]byte{{uni.A0, uni.B0}, {uni.S0, uni.B0}} {
 			from, to := pair[0], pair[1]
 			for _, a := range []world.Action{
 				uni.Call(from, to, vmcommon.BuiltInFunctionESDTNFTTransfer, uni.S, uni.Big(1), uni.Big(5), payload),
